@@ -271,7 +271,7 @@ def successors(state):
         if d["kind"] == "msg":
             for k, it in enumerate(d["items"]):
                 if it["kind"] == "field" and it["type"][0] == "arr" and it["type"][4] is None:
-                    for form in ("{K}", "{K}*1", "({K}+1)-1"):
+                    for form in ("{K}", "{K}*1", "({K}+1)-1", "({K}*2)*3/2/3", "{K}+{K}*4/2-{K}*2"):
                         ns = sym.clone(s)
                         stem2, d2, _, _, _ = sym.find(ns, d["id"])
                         nid = sym.max_id(ns) + 1
@@ -327,15 +327,30 @@ def texts(state):
     return {p.filename: print_proto(p, STYLES[state[1]])[0] for p in proto.all_files()}
 
 
+_BFS = {}
+
+
+def bfs_of(tier, ridx):
+    key = (tier, ridx)
+    if key not in _BFS:
+        rname, root = roots()[ridx]
+        depth = 2 if tier == "quick" else 3
+        _BFS[key] = bfs([(root, 0)], successors, canon, depth, max_states=1600 if tier == "quick" else 12000)
+    return _BFS[key]
+
+
+CHUNK = 100
+
+
 def run_unit(unit):
-    _, tier, ridx = unit
+    _, tier, ridx, lo, hi = unit
     rname, root = roots()[ridx]
     out = UnitOut()
-    depth = 2 if tier == "quick" else 3
-    order, transitions, capped = bfs([(root, 0)], successors, canon, depth, max_states=1600 if tier == "quick" else 12000)
-    out.count("bfs_transitions", transitions)
-    if capped:
-        out.count("capped")
+    order, transitions, capped = bfs_of(tier, ridx)
+    if lo == 0:
+        out.count("bfs_transitions", transitions)
+        if capped:
+            out.count("capped")
     with Scratch() as sc:
         ms0, pkt0, _ = compile_state((root, 0), sc, "root")
         lay0 = ref.layout(pkt0)
@@ -353,7 +368,7 @@ def run_unit(unit):
                 out.violation(check="root", symptom="root_differs_from_reference", site="encode", features=[], desc="root %s vec=%s" % (rname, v))
                 break
         c_every = 7 if tier == "quick" else 3
-        for k, (state, d, hist) in enumerate(order):
+        for k, (state, d, hist) in list(enumerate(order))[lo:hi]:
             out.count("states")
             for ev in hist[-1:]:
                 out.cls("rewrite:" + ev[0])
@@ -485,13 +500,17 @@ class _CBO(cback.CBatch):
 
 
 def units(tier):
-    return [("R", tier, k) for k in range(len(roots()))]
+    us = []
+    for k in range(len(roots())):
+        n = len(bfs_of(tier, k)[0])
+        us += [("R", tier, k, lo, min(n, lo + CHUNK)) for lo in range(0, n, CHUNK)]
+    return us
 
 
 def main(pid, tier):
     t0 = time.time()
     acc = Acc()
-    acc.merge(run_units(units(tier), run_unit, maxtasks=2))
+    acc.merge(run_units(units(tier), run_unit, maxtasks=4))
     c = acc.counters
     g = []
     for need in ("rename", "rename_shadow", "rename_members", "rename_fields", "reorder_fields", "renumber", "introduce_alias", "inline_alias", "swap_definitions",
@@ -503,7 +522,7 @@ def main(pid, tier):
                states_also_checked_in_C=c["c_states"], states_also_checked_in_C_optimization_mode=c["c_opt_states"],
                rule="BFS over rewrite events (rename definitions/fields/members, reorder field declarations, swap independent definitions, introduce/"
                     "inline alias, nested<->top level, move into imported file with/without `as`, comments/whitespace/semicolons, capacity literal -> "
-                    "constant / K*1 / (K+1)-1, renumber +1 / x2) to depth %d from %d roots, canonical de-duplication; every state compiled by the real "
+                    "constant / K*1 / (K+1)-1 / (K*2)*3/2/3 / K+K*4/2-K*2, renumber +1 / x2) to depth %d from %d roots, canonical de-duplication; every state compiled by the real "
                     "compiler; every BASIS value of the root encoded by the generated Python (and by generated C on every %dth state) and compared with "
                     "the root's bytes; non-trivial = value has a bit set" % (2 if tier == "quick" else 3, len(roots()), 7 if tier == "quick" else 3),
                exhaustive=not c["capped"], bound="depth %d, state cap per root %d" % (2 if tier == "quick" else 3, 1600 if tier == "quick" else 12000))
